@@ -1084,6 +1084,45 @@ func main() {
 		}
 	}
 
+	// ---- 4d. the encoding ANNOUNCEMENT as a dimension of its own: header absent, `identity`
+	// explicit, each supported name, other spellings (the unchanged code accepts only the exact
+	// lower-case names: everything else is an "unrecognized grpc-encoding" error), in either
+	// direction, with both processors and on response-only / request-only configurations.
+	anns := []string{"-", "identity", "gzip", "deflate", "snappy", "Identity", "GZIP", " gzip", "gzip ", "", "identity,gzip", "br"}
+	for ai, ann := range anns {
+		for _, d := range dirs {
+			for ci, cf := range []string{"f=CS", "f=S", "f=C"} {
+				for pi, place := range places {
+					var e byte = 'i'
+					switch ann {
+					case "gzip":
+						e = 'g'
+					case "deflate":
+						e = 'f'
+					case "snappy":
+						e = 's'
+					}
+					ms := []msg{{false, []byte("announced")}, {e != 'i', encodeWith(e, ai+pi, []byte("second"))}}
+					w := wire(ms)
+					req := []string{":method", "POST", "content-type", "application/grpc"}
+					resp := []string{":status", "200", "content-type", "application/grpc"}
+					if ann != "-" {
+						if d == 'C' {
+							req = append(req, "grpc-encoding", ann)
+						} else {
+							resp = append(resp, "grpc-encoding", ann)
+						}
+					}
+					toks := []string{cf, hdrTok('C', false, req...), hdrTok('S', false, resp...)}
+					toks = append(toks, specToks(d, e, ms)...)
+					toks = append(toks, framesFor(d, w, []int{3 + (ai+ci+pi)%(len(w)-4)}, place)...)
+					emit("ann", toks)
+					cfg.Count("announce=" + ann)
+				}
+			}
+		}
+	}
+
 	// ---- 5. streams that are not gRPC (Content-Type detection): arbitrary DATA must pass untouched
 	cts := []string{"-", "application/json", "application/grpc+proto", "application/grpc-web", "Application/grpc", "application/grpc ", "text/plain", "application/grpc;charset=utf-8", "application/grpc"}
 	nn := 40
